@@ -665,3 +665,10 @@ def c19_batch_zero_sized(rec, params):
     def empty(x):
         return x.get('k') == 'frame' and (len(x['index']) == 0 or len(x['columns']) == 0)
     return any(empty(item[1]) for item in exp)
+
+
+@classifier
+def c16_loss_class(rec, params):
+    '''the trace specification names the loss class of a delimited round trip that does not reproduce the table (SFDelim: LossTabQuoting,
+    LossEdgeBlank, LossBlankCell, LossNumpyUpgrade); each known finding covers exactly one class'''
+    return rec.get('clause') == params.get('clause')
